@@ -3,6 +3,7 @@
 //! Schema: {"t":"myst"} {"t":"null"} {"t":"bool","b":..} {"t":"num","c":"fin","n":k} (= k/64)
 //! {"t":"num","c":"nzero"|"pinf"|"ninf"|"nan"|"inexact"} {"t":"num","c":"big","s":+-1,"d":"digits"}
 //! {"t":"num","c":"tiny","s":+-1,"d":"0.00ddd"} (non-zero, magnitude below 1/100)
+//! {"t":"num","c":"dec","s":+-1,"d":"ip.fp"} (any other decimal numeral of at most 15 significant digits, below 2^24)
 //! {"t":"str","s":".."} {"t":"str1"} {"t":"arr","a":[..],"d":[{"k":key,"v":val}..]}
 //! key: {"k":"myst"} {"k":"null"} {"k":"bool","b":..} {"k":"str","s":".."}
 //! Place-holder characters in model strings: `~` is U+00E9 (two bytes).
@@ -31,6 +32,16 @@ pub fn num_of(j: &J) -> f64 {
             let d = j["d"].as_str().unwrap();
             let f: f64 = d.parse().unwrap();
             assert_eq!(format!("{}", f), d, "model big number is not exactly a double");
+            if j["s"].as_i64().unwrap() < 0 {
+                -f
+            } else {
+                f
+            }
+        }
+        "dec" => {
+            let d = j["d"].as_str().unwrap();
+            let f: f64 = d.parse().unwrap();
+            assert_eq!(format!("{}", f), d, "model dec number is not printed back digit for digit");
             if j["s"].as_i64().unwrap() < 0 {
                 -f
             } else {
@@ -145,7 +156,14 @@ pub fn num_json(f: f64) -> J {
         } else if f.abs() < 0.01 {
             json!({"t":"num","c":"tiny","s": if f < 0.0 {-1} else {1},"d":format!("{}", f.abs())})
         } else {
-            json!({"t":"num","c":"inexact","text":format!("{}", f)})
+            // a decimal numeral of at most 15 significant digits, integer part within the fixed-point band: class `dec`
+            let text = format!("{}", f.abs());
+            let sig = text.chars().filter(|c| c.is_ascii_digit()).collect::<String>().trim_start_matches('0').len();
+            if sig <= 15 && f.abs() < 16777216.0 {
+                json!({"t":"num","c":"dec","s": if f < 0.0 {-1} else {1},"d":text})
+            } else {
+                json!({"t":"num","c":"inexact","text":format!("{}", f)})
+            }
         }
     }
 }
@@ -164,7 +182,7 @@ pub fn matches(exp: &J, obs: &J) -> bool {
             match exp["c"].as_str().unwrap() {
                 "inexact" => true,
                 "fin" => obs["c"] == "fin" && obs["n"] == exp["n"],
-                "big" | "tiny" => obs["c"] == exp["c"] && obs["s"] == exp["s"] && obs["d"] == exp["d"],
+                "big" | "tiny" | "dec" => obs["c"] == exp["c"] && obs["s"] == exp["s"] && obs["d"] == exp["d"],
                 c => obs["c"] == c,
             }
         }
